@@ -19,7 +19,9 @@ TYPES = ["t1", "t2", "-", "object", "t3", "-", "t1"]
 # one another (?a, ?a2) and is used by the state / problem / trajectory checks only.
 PREDICATES = [["p", "?x", "-", "t1"], ["q", "?x", "-", "t1", "?y", "-", "t1"], ["r"], ["s", "?x", "-", "t2"],
               ["m", "?a", "-", "t3", "?a2", "-", "t1"]]
-FUNCTIONS = [["f", "?x", "-", "t1"], ["g"], ["h", "?x", "-", "t1", "?y", "-", "t1"]]
+FUNCTIONS = [["f", "?x", "-", "t1"], ["g"], ["h", "?x", "-", "t1", "?y", "-", "t1"],
+             # three parameters: only as a frame fluent of the state / problem / trajectory checks (an argument three times)
+             ["w3", "?a", "-", "t1", "?b", "-", "t1", "?c", "-", "t1"]]
 OBJECTS = {"o1": "t1", "o2": "t1", "o3": "t3", "u1": "t2"}
 CONSTANTS = {"k": "t1"}
 
@@ -29,6 +31,7 @@ PARAM_LISTS = {
     "P2": [("?x", "t1"), ("?y", "t1")],
     "P3": [("?x", "t3"), ("?y", "t1")],
     "P4": [("?x", "t1"), ("?u", "t2"), ("?y", "t1")],  # equal types not adjacent
+    "P5": [("?x", "t1"), ("?y", "t1"), ("?w", "t1")],  # three parameters of one type (cyclic renamings)
 }
 
 
